@@ -56,6 +56,16 @@ def rank_failure(f):
     return 2
 
 
+def scope_bounded(inst):
+    """Is an instance with completely unwound loops exhaustive only up to a verification cap?  unit.json key "scope_bounded":
+    false = the unwound loops are bounded by a constant of the real code (or listed for the loop census only), true / absent =
+    bounded by the object-size cap (the conservative default), a string = regex: bounded iff an unwound loop's function matches."""
+    v = inst.get("scope_bounded", True)
+    if isinstance(v, str):
+        return any(re.search(v, l.get("function", "")) for l in inst.get("unwind_loops", []))
+    return bool(v)
+
+
 def do_replay(prop, inst, res, scratch):
     """Small-scope re-query for a counterexample, then native replay against the real code."""
     rp_dir = os.path.join(VERIF, "replays", prop)
@@ -288,7 +298,7 @@ def main():
                 machinery.append("%s/%s: %s" % (r["unit"], r["instance"], " | ".join(r["reason"].splitlines()[:6])[:700]))
             obligations += r["obligations"]
             discharged += r["discharged"]
-            if r.get("loops_unwound", 0) > 0:
+            if r.get("loops_unwound", 0) > 0 and (r.get("bounded_fallback") or scope_bounded(r["_inst"])):
                 # loops closed by complete unwinding up to the size cap, not by a loop contract: exhaustive up to the cap only
                 capped_obl += r["obligations"]
                 capped_dis += r["discharged"]
@@ -316,7 +326,7 @@ def main():
                     if k:
                         known_lines.append("KNOWN-FINDING: property=%s %s" % (prop, k["what"]))
                         known_obls.append("%s/%s %s: %s [%s:%s]" % (r["unit"], r["instance"], f["id"], f["description"], f["file"], f["line"]))
-                        if r.get("loops_unwound", 0) > 0:
+                        if r.get("loops_unwound", 0) > 0 and (r.get("bounded_fallback") or scope_bounded(r["_inst"])):
                             capped_known += 1
                     else:
                         unknown.append(f)
